@@ -62,7 +62,15 @@ EXTRA_OPTS = {
     "use_try_shorthand": [True, False], "use_field_init_shorthand": [True, False], "force_explicit_abi": [True, False],
     "skip_children": [True, False], "disable_all_formatting": [False, False, True],
     "format_generated_files": [True, False], "generated_marker_line_search_limit": [0, 1, 5],
+    # control options: they change how rustfmt operates rather than the layout, and are accepted in any config
+    "emit_mode": ["Files", "Stdout", "Coverage", "Checkstyle", "Json", "ModifiedLines", "Diff"],
+    "make_backup": [True, False], "print_misformatted_file_names": [True, False],
+    "verbose": ["Normal", "Verbose", "Quiet"], "color": ["Always", "Never", "Auto"],
+    "unstable_features": [True, False], "show_parse_errors": [True, False], "hide_parse_errors": [True, False],
+    "required_version": ["1.8.0", "*", ">=1.0.0"],
 }
+CONTROL_OPTS = ["emit_mode", "make_backup", "print_misformatted_file_names", "verbose", "color", "unstable_features",
+                "show_parse_errors", "hide_parse_errors", "required_version"]
 SITES = ["parser_new", "parse_crate_mod", "parse_file_as_module", "rewrite_macro", "format_snippet", "parse_cfg_if"]
 _corpus = None
 
@@ -98,6 +106,9 @@ def draw_config(rng):
     names = sorted(EXTRA_OPTS)
     for k in rng.sample(names, rng.range(0, 6)):
         opts[k] = rng.choice(EXTRA_OPTS[k])
+    if rng.chance(20):
+        for k in rng.sample(CONTROL_OPTS, rng.range(1, 2)):
+            opts[k] = rng.choice(EXTRA_OPTS[k])
     # explicit width options stay within the page (an accepted configuration)
     if rng.chance(25):
         for k in rng.sample(gen_config.WIDTHS, rng.range(1, 3)):
@@ -174,8 +185,14 @@ def generate(rng, tier):
         text = "// @generated\n" + text
     badutf8 = rng.chance(3)
     delivery = rng.choice(["root", "root", "module", "module", "stdin"])
+    cfg = draw_config(rng)
+    if delivery == "stdin" and rng.chance(30):
+        # stdin has no file to write to: every emit mode a configuration can name must still end in 0 or 1
+        cfg["emit_mode"] = rng.choice(EXTRA_OPTS["emit_mode"])
+        if rng.chance(30):
+            cfg["make_backup"] = True
     return {"lane": "B", "source": name, "text": text, "mutations": desc, "depth": depth, "badutf8": badutf8,
-            "delivery": delivery, "config": draw_config(rng), "hashseed": rng.below(1 << 32),
+            "delivery": delivery, "config": cfg, "hashseed": rng.below(1 << 32),
             "via": rng.choice(["file", "file", "cli", "configpath"]) if optout != "ignored" else "file", "optout": optout,
             "emit": rng.choice([[], [], ["--check"], ["--check"], ["--emit", "stdout"], ["--emit", "json"]]) + rng.choice([[], [], [], ["-v"], ["-q"]])
                     + rng.choice([[], [], [], ["--color", "always"], ["--color", "auto"], ["--color", "never"], ["--config", "color=Always"]]),
